@@ -637,6 +637,9 @@ sc_shmem_write_start_window (void *array, sc_MPI_Comm comm,
 
   mpiret = MPI_Win_unlock (0, win);
   SC_CHECK_MPI (mpiret);
+  /* nobody may still read the array when the writer begins to change it */
+  mpiret = sc_MPI_Barrier (intranode);
+  SC_CHECK_MPI (mpiret);
   mpiret = sc_MPI_Comm_rank (intranode, &intrarank);
   SC_CHECK_MPI (mpiret);
   if (!intrarank) {
